@@ -25,6 +25,7 @@ def check(run):
         F = run.facts(cfg)
         run.guard("C15.1.type-gate", cfg, lambda: rule_type_gate(run, F, cfg))
         run.guard("C15.3.set-algebra", cfg, lambda: rule_sets(run, F, cfg))
+        run.guard("C15.3.set-algebra", cfg + "/merge", lambda: rule_merge(run, F, cfg))
         run.guard("C15.4.parse-guard", cfg, lambda: rule_parse(run, F, cfg))
         b = run.borrow("C01", why="a multi-domain $csp rule must be stored under every one of its domain tokens")
         run.guard("C15.via.C01.1.token-source", cfg, lambda: _C01.rule_store(b, F, cfg))
@@ -42,6 +43,9 @@ def check(run):
         from . import C04 as _C04
         b7 = run.borrow("C04", only=r"csp|cancelled|loop-runs", why="csp rules and their $badfilter cancellation go through the common routing")
         run.guard("C15.via.C04.1.routing", cfg, lambda: _C04.rule_routing(b7, F, cfg))
+        from . import C07 as _C07g
+        bg = run.borrow("C07", only=r"check_all", why="every matching rule of the list is collected by check_all")
+        run.guard("C15.via.C07.2.gate-shape", cfg, lambda: _C07g.rule_gate_shape(bg, F, cfg))
         run.guard("C15.via.C03.1.option-chain", cfg, lambda: (_C03.rule_chain(b4, F, cfg), _C03.rule_polarity(b4, F, cfg)))
 
 
@@ -207,3 +211,23 @@ def rule_parse(run, F, cfg):
                     csp_arm = True
     run.ob("C15.4.parse-guard", "csp-implies-document", csp_arm,
            "the Csp arm of parse sets FROM_DOCUMENT together with IS_CSP", config=cfg)
+
+
+def rule_merge(run, F, cfg):
+    """every remaining directive ends up in the result: the first one starts the string, each further one is appended
+    after a ',' separator; nothing else is written to the result"""
+    g = F.fn("blocker::Blocker::get_csp_directives")
+    first = [g.vexpr_call(t) for b, t in g.calls(r"^<std::string::String as std::convert::From<&str>>::from$|ToString>::to_string$|str::to_owned$")
+             if "difference" in g.expr_call(t) or "remaining" in g.vexpr_call(t)]
+    fe = [(b, g.vexpr_call(t)) for b, t in g.calls(r"Iterator>?::for_each$") if "difference" in g.expr_call(t)]
+    body = []
+    for b, e in fe:
+        m = re.search(r"closure\[([^\]]+)\]", e)
+        c = F.fns.get(m.group(1)) if m else None
+        if c is not None:
+            body = [re.sub(r"arg:\w+", "arg:directive", c.expr_call(t)) for b2, t in c.calls(r"String::push(_str)?$")]
+    ok = len(first) >= 1 and len(fe) == 1 and body == ["std::string::String::push(up:merged, ',')", "std::string::String::push_str(up:merged, arg:directive)"]
+    ret = g.expr_local(0)
+    run.ob("C15.3.set-algebra", "every-remaining-directive-is-joined", ok and "Some{" in ret,
+           f"get_csp_directives starts the result with the first remaining directive and appends `,` + directive for every "
+           f"other one of enabled \\ disabled (closure body {body})", site=g.loc(0), config=cfg)
